@@ -149,6 +149,8 @@ func (s *heapSys) Ops() []seqmc.Op {
 					// the result is adopted and afterwards the SOURCE heap is converted to the opposite
 					// comparator: the result must keep the order it was created with
 					ops = append(ops, op("MergeAdoptConvertSource", i, opp), op("MeldAdoptConvertSource", i, opp))
+					// ... or the emptied inputs of a Meld are used again: the result is a heap of its own
+					ops = append(ops, op("MeldAdoptReuseSource", i, opp))
 				}
 			} else {
 				ops = append(ops, op("MergeDrop", i, opp))
@@ -278,7 +280,7 @@ func (s *heapSys) Apply(o seqmc.Op, c *seqmc.Ctx) {
 			c.Fail(n+"Meld/self/result-size", "h.Meld(h) of a heap holding %d elements has Size %d: every element is held once", len(s.model), r.Size())
 		}
 		s.h = r
-	case "MergeAdopt", "MergeDrop", "MeldAdopt", "MergeAdoptConvertSource", "MeldAdoptConvertSource":
+	case "MergeAdopt", "MergeDrop", "MeldAdopt", "MergeAdoptConvertSource", "MeldAdoptConvertSource", "MeldAdoptReuseSource":
 		other := s.others()[o.I[0]]
 		od := append([]hE{}, other...)
 		cmp2 := s.cmp
@@ -289,7 +291,7 @@ func (s *heapSys) Apply(o seqmc.Op, c *seqmc.Ctx) {
 		union := append(append([]hE{}, s.model...), other...)
 		convSrc := strings.HasSuffix(o.N, "ConvertSource")
 		opposite := hComps[map[string]string{"<": ">", ">": "<"}[s.cmp]]
-		if o.N == "MeldAdopt" || o.N == "MeldAdoptConvertSource" {
+		if o.N == "MeldAdopt" || o.N == "MeldAdoptConvertSource" || o.N == "MeldAdoptReuseSource" {
 			src := s.h
 			r := s.h.Meld(h2)
 			if s.h.Size() != 0 || h2.Size() != 0 {
@@ -302,6 +304,16 @@ func (s *heapSys) Apply(o seqmc.Op, c *seqmc.Ctx) {
 			if convSrc {
 				src.Convert(opposite)
 				h2.Convert(opposite)
+			}
+			if o.N == "MeldAdoptReuseSource" {
+				// values that would come to the top under either comparator
+				for _, h := range []*heap.Heap[hE]{src, h2} {
+					h.Push(hE{-1000, 901})
+					h.Push(hE{1000, 902})
+					if h.Size() != 2 {
+						c.Fail(n+"Meld/emptied-input-not-usable", "an input of Meld holds %d elements after two pushes, want 2", h.Size())
+					}
+				}
 			}
 			return
 		}
